@@ -2,6 +2,8 @@ mod c02;
 mod c09;
 mod c10;
 mod c16;
+mod c17;
+mod c18;
 mod gen;
 mod inv;
 mod model;
@@ -31,12 +33,28 @@ fn arg_after(args: &[String], flag: &str) -> Option<String> {
 
 fn main() {
     let args: Vec<String> = std::env::args().collect();
-    if args.len() < 3 {
+    if args.len() < 3 && args.get(1).map(|s| s.as_str()) != Some("exec-case") {
         eprintln!("usage: mverif check <ID> [--tier quick|thorough] [--seed N] [--replay FILE] | mverif worker <ID> <part> --cases N --seed S --out FILE --tier T");
         std::process::exit(2);
     }
     match args[1].as_str() {
         "worker" => worker_main(&args),
+        "exec-case" => {
+            world::install_panic_hook();
+            let mut input = Vec::new();
+            use std::io::Read;
+            std::io::stdin().read_to_end(&mut input).unwrap();
+            let perm: Option<u64> = args.get(2).and_then(|s| s.parse().ok());
+            let out = match serde_json::from_slice::<props::Case>(&input) {
+                Ok(case) => match c18::exec_case(&case, perm) {
+                    Ok(t) => json!({ "trace": t }),
+                    Err(e) => json!({ "error": e }),
+                },
+                Err(e) => json!({"error": format!("bad case: {}", e)}),
+            };
+            println!("{}", out);
+            std::process::exit(0);
+        }
         "check" => check_main(&args),
         _ => {
             eprintln!("unknown command");
